@@ -14,11 +14,20 @@ import re
 from . import rx
 from .core import AnalysisError
 
-WS = ' \t\n\r\x0b\x0c'
+WS = ' \t\n\r\x0b\x0c'      # replaced below by every whitespace symbol of the alphabet (str.strip() strips Unicode whitespace)
+
+
+def ws_chars():
+    return ''.join(c for c in alpha().syms if isinstance(c, str) and c.isspace())
 
 
 class Undecided(AnalysisError):
-    pass
+    """a decision is not determined by the case; `atom`/`split` (when known) say how to refine the case: the values of
+    the atom in `split` decide it one way, the others the other way"""
+
+    def __init__(self, msg, atom=None, split=None):
+        AnalysisError.__init__(self, msg)
+        self.atom, self.split = atom, split
 
 
 _alpha = [None]
@@ -190,7 +199,48 @@ class SStr:
             return True
         if mine.intersect(lang_true).is_empty():
             return False
-        raise Undecided('%s is not determined for the case %r' % (what, self))
+        atom, split = self._preimage(lang_true)
+        raise Undecided('%s is not determined for the case %r' % (what, self), atom, split)
+
+    def _preimage(self, lang_true):
+        """(atom, language of the atom's values for which the term is in lang_true) when the term depends on one atom"""
+        sym = [p for p in self.parts if not isinstance(p, str)]
+        if len(sym) != 1:
+            return None, None
+        p = sym[0]
+        i = self.parts.index(p)
+        pre = ''.join(x for x in self.parts[:i])
+        suf = ''.join(x for x in self.parts[i + 1:])
+        try:
+            inner = rx.quotient(lang_true, pre, suf) if (pre or suf) else lang_true
+        except Exception:      # pylint: disable=broad-except
+            return None, None
+        if isinstance(p, Atom):
+            return p, inner
+        if isinstance(p, Fn) and p.name in ('strip', 'lstrip', 'rstrip') and len(p.arg.parts) == 1 and isinstance(p.arg.parts[0], Atom):
+            cs = ws_chars() if not p.extra else p.extra[0]
+            cls_ = '[' + ''.join(re.escape(ch) for ch in cs) + ']'
+            left = p.name in ('strip', 'lstrip')
+            right = p.name in ('strip', 'rstrip')
+            core = inner
+            if left:
+                core = core.minus(L(cls_ + '.*'))
+            if right:
+                core = core.minus(L('.*' + cls_))
+            pad = L(cls_ + '*')
+            out = core
+            if left:
+                out = rx.concat(pad, out)
+            if right:
+                out = rx.concat(out, pad)
+            return p.arg.parts[0], out
+        if isinstance(p, Fn) and p.name in ('first', 'rest', 'init', 'last') and len(p.arg.parts) == 1 and isinstance(p.arg.parts[0], Atom):
+            anyc = L('.')
+            anys = L('.*')
+            out = {'first': lambda: rx.concat(inner.intersect(anyc), anys), 'last': lambda: rx.concat(anys, inner.intersect(anyc)),
+                   'rest': lambda: rx.concat(anyc, inner), 'init': lambda: rx.concat(inner, anyc)}[p.name]()
+            return p.arg.parts[0], out
+        return None, None
 
     def truth(self):
         if any(isinstance(p, str) for p in self.parts):
@@ -226,6 +276,10 @@ class SStr:
         a, b = self.concrete(), o.concrete()
         if a is not None and b is not None:
             return a == b
+        if b is not None:
+            return self._decide(lit_lang(b), '== %r' % b)
+        if a is not None:
+            return o._decide(lit_lang(a), '== %r' % a)
         raise Undecided('%r == %r' % (self, o))
 
     def member_of(self, chars_or_items):
@@ -286,7 +340,7 @@ class SStr:
                     continue
             else:
                 if not self._sep_free(p, sep):
-                    raise Undecided('the piece %r may contain %r' % (p, sep))
+                    raise _und(p, L('.*' + re.escape(sep) + '.*'), 'the piece %r may contain %r' % (p, sep))
                 cur.append(p)
             i += 1
         pieces.append(SStr(cur))
@@ -340,9 +394,18 @@ class SStr:
                         continue
             else:
                 if not p.lang.intersect(ws_any).is_empty():
-                    raise Undecided('the piece %r may contain whitespace' % (p,))
+                    if p.lang.not_subset_witness(ws_any) is None:
+                        # every value of the piece contains whitespace: it is cut into at least two fields whose
+                        # boundaries are unknown -- represented by opaque parts (never equal to the piece itself)
+                        anyl = L('.+')       # fields produced by split() are never empty
+                        cur.append(Fn('field-before-whitespace', SStr([p]), anyl))
+                        fields.append(SStr(cur))
+                        cur = [Fn('fields-after-whitespace', SStr([p]), anyl)]
+                        i += 1
+                        continue
+                    raise _und(p, ws_any, 'the piece %r may contain whitespace' % (p,))
                 if not p.lang.intersect(lit_lang('')).is_empty() and not cur:
-                    raise Undecided('the piece %r may be empty' % (p,))
+                    raise _und(p, lit_lang(''), 'the piece %r may be empty' % (p,))
                 cur.append(p)
                 seen_text = True
             i += 1
@@ -406,11 +469,11 @@ class SStr:
         return ps
 
     def strip(self, chars=None, left=True, right=True):
-        cs = WS if chars is None else lift(chars).concrete()
+        cs = ws_chars() if chars is None else lift(chars).concrete()
         c = self.concrete()
         name = 'strip' if left and right else 'lstrip' if left else 'rstrip'
         if c is not None:
-            return SStr([getattr(c, name)(cs)])
+            return SStr([getattr(c, name)(None if chars is None else cs)])
         cls_ = '[' + ''.join(re.escape(ch) for ch in cs) + ']'
         only = L(cls_ + '*')
         parts = list(self.parts)
@@ -605,6 +668,12 @@ class SStr:
         return SStr(l2[len(left):]) if len(l2) >= len(left) else SStr()
 
 
+def _und(piece, lang_true, msg):
+    """Undecided with the refinement hint "does the piece lie in lang_true?" when the piece depends on one atom"""
+    a_, sp = SStr([piece])._preimage(lang_true)
+    return Undecided(msg, a_, sp)
+
+
 def regex_chars(pattern, flags=0):
     """characters (of the symbolic alphabet) that can occur inside a match of the pattern"""
     a = alpha()
@@ -659,9 +728,42 @@ def regex_split(pattern, flags, s, maxsplit=0):
             cur.append(p[pos:])
         else:
             if not p.lang.intersect(bad).is_empty():
-                raise Undecided('the piece %r may contain a character of the separator pattern %r' % (p, pattern))
+                raise _und(p, bad, 'the piece %r may contain a character of the separator pattern %r' % (p, pattern))
             cur.append(p)
     out.append(SStr(cur))
+    return out
+
+
+def regex_test(pattern, flags, mode, s):
+    """does the regex match (search / match / fullmatch) the symbolic string?  True / False / Undecided"""
+    s = lift(s)
+    lang = rx.regex_lang(pattern, flags, mode, alpha=alpha())
+    return s._decide(lang, '%s of %r' % (mode, pattern))
+
+
+def explore(atoms, body, depth=8):
+    """run body(atoms) (atoms: dict name -> SStr of one Atom); whenever a decision is Undecided because of one atom, the
+    case is split on that atom's language and both sub-cases are run.  -> [(dict name -> Lang, result)]"""
+    out = []
+
+    def go(langs, d):
+        cur = {n: atom(n, l_) for n, l_ in langs.items()}
+        try:
+            out.append((dict(langs), body(cur)))
+            return
+        except Undecided as u:
+            if u.atom is None or u.atom.name not in langs or d <= 0:
+                raise
+            name = u.atom.name
+            yes = langs[name].intersect(u.split)
+            no = langs[name].minus(u.split)
+            if yes.is_empty() or no.is_empty():
+                raise
+        for sub in (yes, no):
+            l2 = dict(langs)
+            l2[name] = sub
+            go(l2, d - 1)
+    go({n: (v if isinstance(v, rx.Lang) else L(v)) for n, v in atoms.items()}, depth)
     return out
 
 
